@@ -38,7 +38,7 @@ def resident_desc(draw, inc_ok):
 @st.composite
 def histories(draw, viewers=False, residents=False, inc_ok=False,
               max_ticks=6, reject_ok=False, step_op_ok=True,
-              tuple_delete=False):
+              tuple_delete=False, none_ok=False):
     counter = [0]
     graveyard = []      # keys that existed in an earlier tick and are gone now
 
@@ -57,6 +57,8 @@ def histories(draw, viewers=False, residents=False, inc_ok=False,
             s['x'] = draw(st.integers(0, 50))
         if draw(st.integers(0, 2)) == 0:
             s['y'] = draw(st.integers(0, 50))
+        elif none_ok and draw(st.integers(0, 4)) == 0:
+            s['y'] = None       # an explicitly unset variable must stay unset
         return s
 
     init = {}
@@ -80,9 +82,19 @@ def histories(draw, viewers=False, residents=False, inc_ok=False,
     nticks = draw(st.integers(1, max_ticks))
     ticks = []
     expect_reject = False
+    recreate = []       # (collection, key): re-create right after removal
     for t in range(nticks):
         batch = []
         used = set()
+        for (p_, k_) in recreate:
+            if k_ in graveyard:
+                graveyard.remove(k_)
+            op = {'op': 'generate', 'coll': p_, 'key': k_, 'state': state(),
+                  'resident': draw(resident_desc(inc_ok)) if residents
+                  else None}
+            batch.append(op)
+            used.add(k_)
+        recreate = []
         nops = draw(st.sampled_from([1, 1, 1, 2, 2, 3]))
         for _ in range(nops):
             kinds = ['add', 'generate']
@@ -129,9 +141,11 @@ def histories(draw, viewers=False, residents=False, inc_ok=False,
             elif kind == 'set':
                 p = draw(st.sampled_from(anyk))
                 k = draw(st.sampled_from(avail[p]))
+                var = draw(st.sampled_from(['x', 'y']))
+                if ref.coll(model, p)[k].get(var) is None:
+                    var = 'x'           # nothing can be added to an unset value
                 op = {'op': 'set', 'coll': p, 'key': k,
-                      'delta': {draw(st.sampled_from(['x', 'y'])):
-                                draw(st.integers(1, 9))}}
+                      'delta': {var: draw(st.integers(1, 9))}}
             elif kind == 'move':
                 p = draw(st.sampled_from(anyk))
                 k = draw(st.sampled_from(avail[p]))
@@ -163,6 +177,10 @@ def histories(draw, viewers=False, residents=False, inc_ok=False,
             used.add(key)
             used.update(op.get('daughters', []))
             batch.append(op)
+            if op['op'] in ('delete', 'divide') and op.get('form', 'key') == \
+                    'key' and t + 1 < nticks and draw(st.integers(0, 2)) == 0:
+                # the same path comes back at the very next event
+                recreate.append((op['coll'], key))
         if reject_ok and t == nticks - 1 and draw(st.integers(0, 7)) == 0:
             cands = [(p, k) for p in PORTS for k in ref.coll(model, p)
                      if k not in used]
@@ -181,6 +199,7 @@ def histories(draw, viewers=False, residents=False, inc_ok=False,
             graveyard[:] = [k for k in graveyard if k not in after_keys]
         ticks.append(batch)
     spec = {'init': init, 'residents': res0, 'ticks': ticks,
+            'op_name': draw(st.sampled_from(['OP', 'AOP'])),
             'op_is_step': bool(step_op_ok and not expect_reject
                                and draw(st.integers(0, 3)) == 0),
             'viewers': [], 'expect_reject': expect_reject}
@@ -226,17 +245,20 @@ def initial_model(spec):
 def build(spec, ctx, parallel_names=()):
     """-> kwargs for Engine(...)"""
     processes, steps, flow, topology = {}, {}, {}, {}
+    # the operator's name decides whether it sorts before or after the
+    # compartments' steps within its layer ('AOP' < 'G1' < 'OP')
+    op = spec.get('op_name', 'OP')
     if spec['op_is_step']:
-        steps['OP'] = kit.OpStep({'name': 'OP', 'run_id': ctx.run_id,
-                                  'script': copy.deepcopy(spec['ticks'])})
-        flow['OP'] = []
+        steps[op] = kit.OpStep({'name': op, 'run_id': ctx.run_id,
+                                'script': copy.deepcopy(spec['ticks'])})
+        flow[op] = []
         processes['TK'] = kit.TickProcess({'name': 'TK', 'run_id': ctx.run_id,
                                            'time_step': 1.0})
         topology['TK'] = {'clock': ('clock',)}
     else:
-        processes['OP'] = kit.OpProcess({'name': 'OP', 'run_id': ctx.run_id,
-                                         'script': copy.deepcopy(spec['ticks'])})
-    topology['OP'] = dict(kit.OP_TOPOLOGY)
+        processes[op] = kit.OpProcess({'name': op, 'run_id': ctx.run_id,
+                                       'script': copy.deepcopy(spec['ticks'])})
+    topology[op] = dict(kit.OP_TOPOLOGY)
     for v in spec['viewers']:
         sub = {var: copy.deepcopy(kit.SUB_SCHEMA[var]) for var in v['vars']}
         processes[v['name']] = kit.WireProcess({
@@ -273,16 +295,25 @@ def hierarchy_values(engine):
     return strip(whole)
 
 
+_DROP = object()
+
+
 def strip(tree):
+    """Remove process entries; None-valued leaves are values and stay."""
+    w = _strip(tree)
+    return {} if w is _DROP else w
+
+
+def _strip(tree):
     if isinstance(tree, dict):
         out = {}
         for k, v in tree.items():
-            w = strip(v)
-            if w is not None:
+            w = _strip(v)
+            if w is not _DROP:
                 out[k] = w
         return out
     if isinstance(tree, str) and tree.startswith('<process'):
-        return None
+        return _DROP
     return tree
 
 
